@@ -315,6 +315,10 @@ func (e *Engine) load(st *state, addr *Val, t types.Type) *Val {
 		if c, ok := st.content[base.Key()]; ok {
 			return &Val{Op: "elem", Args: []*Val{c, addr.Args[1]}, Type: t}
 		}
+		if base.Op == "bufnext" && len(base.Args) == 3 {
+			// an element of the view Next handed out: an element of the bytes that read delivered
+			return &Val{Op: "elem", Args: []*Val{base.Args[2], addr.Args[1]}, Type: t}
+		}
 	}
 	root := addrRoot(addr)
 	if root != nil && root.Op == "alloc" {
@@ -332,6 +336,23 @@ func (e *Engine) load(st *state, addr *Val, t types.Type) *Val {
 			}
 			if any {
 				return agg
+			}
+		}
+		// likewise a short array of records filled element by element (a table in a composite literal)
+		if av, isArr := t.Underlying().(*types.Array); isArr && av.Len() > 0 && av.Len() <= 16 {
+			if _, recs := av.Elem().Underlying().(*types.Struct); recs {
+				any := false
+				agg := &Val{Op: "array", Type: t}
+				for i := int64(0); i < av.Len(); i++ {
+					ea := &Val{Op: "index", Args: []*Val{addr, mkInt(i)}, Type: types.NewPointer(av.Elem())}
+					if _, has := st.mem[ea.Key()]; has {
+						any = true
+					}
+					agg.Args = append(agg.Args, e.load(st, ea, av.Elem()))
+				}
+				if any {
+					return agg
+				}
 			}
 		}
 		// memory allocated on this path and never stored: zero value.
@@ -357,6 +378,8 @@ func (e *Engine) storedAncestor(st *state, addr *Val) *Val {
 				c := chain[i]
 				if c.Op == "field" {
 					v = fieldOfVal(v, c.ID, c.Name, c.Type)
+				} else if k, isC := c.Args[1].Int64(); v.Op == "array" && isC && k >= 0 && int(k) < len(v.Args) {
+					v = v.Args[k]
 				} else {
 					v = &Val{Op: "elem", Args: []*Val{v, c.Args[1]}, Type: c.Type}
 				}
@@ -737,6 +760,29 @@ func (e *Engine) unrollable(fr *frame, h *ssa.BasicBlock, body map[*ssa.BasicBlo
 			if c, isCall := in.(*ssa.Call); isCall && !c.Call.IsInvoke() && c.Call.StaticCallee() == nil {
 				if _, isB := c.Call.Value.(*ssa.Builtin); !isB {
 					return true
+				}
+			}
+			// ... or whose elements are records or pointers that say what each step works on (a table of field
+			// pointers and widths): the element of each iteration is a constant of the program
+			if ia, isIA := in.(*ssa.IndexAddr); isIA {
+				var el types.Type
+				switch xt := ia.X.Type().Underlying().(type) {
+				case *types.Slice:
+					el = xt.Elem()
+				case *types.Pointer:
+					if arr, isArr := xt.Elem().Underlying().(*types.Array); isArr {
+						el = arr.Elem()
+					}
+				}
+				if el != nil {
+					switch el.Underlying().(type) {
+					case *types.Struct, *types.Pointer, *types.Signature:
+						if def, isInstr := ia.X.(ssa.Instruction); !isInstr || !body[def.Block()] {
+							if _, isParam := ia.X.(*ssa.Parameter); !isParam {
+								return true
+							}
+						}
+					}
 				}
 			}
 		}
@@ -1496,6 +1542,17 @@ func (e *Engine) loopOutVal(phi *ssa.Phi, init, lv *Val, iters []*Arm, count *Va
 	if lc.ctrVar != nil && lc.ctrVar.Key() == lv.Key() && lc.ctrOff == 0 && lc.ctrBound != nil {
 		// the counter of a counted loop: on exit it lies between its initial value and the bound
 		out.Args = append(out.Args, lc.ctrBound)
+	} else if lc.ctrVar != nil && lc.ctrBound != nil && lc.ctrVar.Key() != lv.Key() && len(lc.ctrVar.Args) == 1 {
+		// a second variable moving in lock-step with the counter (same constant step on every back edge): it stays at a
+		// constant distance from the tested expression, so it has the bound shifted by that distance
+		s1, ok1 := lv.Aux.(int64)
+		s2, ok2 := lc.ctrVar.Aux.(int64)
+		if ok1 && ok2 && s1 == s2 && s1 != 0 {
+			d := affOf(init).Add(affOf(lc.ctrVar.Args[0]), -1).Add(affConst(lc.ctrOff), -1)
+			if k, isC := d.IsConst(); isC {
+				out.Args = append(out.Args, affToVal(affOf(lc.ctrBound).Add(affConst(k), 1)))
+			}
+		}
 	}
 	return out
 }
